@@ -140,14 +140,60 @@ fn case_generated(ctx: &Ctx, rng: &mut Rng, rep: &mut Report, params: &vcore::bu
     } else {
         gen_bundle(rng, params)
     };
-    let form = rng.below(10);
+    let form = rng.below(11);
+    // a generator that READS its block references: it prepends one extra spend whose parent id is
+    // sha256(ref0 ‖ ref1), computed at run time from the first two references, in that order
+    let mut b = b;
+    let mut refs_for_reader: Option<Vec<Vec<u8>>> = None;
     let (program_sx, form_name): (Sx, &str) = match form {
         0..=3 => (quoted_generator(&b), "quoted-plain"),
         4..=5 => (quoted_generator(&b), "quoted-backrefs"),
         6 => (procedural_generator(&b), "procedural"),
         7 => (computed_program(&generator_value(&b), rng, 0), "procedural-computed-atoms"),
+        8 => {
+            let n = 2 + rng.usize(2);
+            let refs: Vec<Vec<u8>> = (0..n)
+                .map(|i| {
+                    let k = rng.usize(6);
+                    [vec![i as u8 + 1], rng.bytes(k)].concat()
+                })
+                .collect();
+            let rest = generator_value(&b);
+            let parent = vcore::sha256(&[&refs[0], &refs[1]]);
+            let ph = vcore::bundlegen::puzzle(0).tree_hash();
+            let amount = rng.below(500);
+            let q = |v: Sx| Sx::pair(Sx::atom(&[1]), v);
+            let env = Sx::atom(&[1]);
+            let refs_list = Sx::list(&[Sx::atom(&[5]), Sx::list(&[Sx::atom(&[6]), env])]); // (f (r 1))
+            let ref0 = Sx::list(&[Sx::atom(&[5]), refs_list.clone()]);
+            let ref1 = Sx::list(&[Sx::atom(&[5]), Sx::list(&[Sx::atom(&[6]), refs_list])]);
+            let tail = Sx::list(&[vcore::bundlegen::puzzle(0), Sx::atom(&vcore::ints::minimal_be_u64(amount)), Sx::nil()]);
+            let extra = Sx::list(&[Sx::atom(&[4]), Sx::list(&[Sx::atom(&[11]), ref0, ref1]), q(tail)]);
+            let (spend_list, ext) = rest.as_pair().map(|(l, e)| (l.clone(), e.clone())).unwrap();
+            let program = Sx::list(&[Sx::atom(&[4]), Sx::list(&[Sx::atom(&[4]), extra, q(spend_list)]), q(ext)]);
+            // the same extra spend on the model's side
+            b.spends.insert(
+                0,
+                vcore::bundlegen::ASpend {
+                    parent,
+                    puzzle_idx: 0,
+                    puzzle_hash: ph,
+                    amount,
+                    amount_atom: Sx::atom(&vcore::ints::minimal_be_u64(amount)),
+                    parent_atom: Sx::atom(&parent),
+                    puzzle_hash_atom: Sx::atom(&ph),
+                    conds: vec![],
+                    cond_term: Sx::nil(),
+                    spend_ext: Sx::nil(),
+                    fields: 4,
+                },
+            );
+            refs_for_reader = Some(refs);
+            (program, "procedural-reads-block-refs")
+        }
         _ => (quoted_generator(&b), "byte-mutated"),
     };
+    let b = b;
     let known_output = form_name != "byte-mutated";
     let program: Vec<u8> = match form_name {
         "quoted-backrefs" => serialize_backrefs(&program_sx),
@@ -157,9 +203,10 @@ fn case_generated(ctx: &Ctx, rng: &mut Rng, rep: &mut Report, params: &vcore::bu
     // SIMPLE_GENERATOR admits exactly the programs of the form (q . x)
     let is_plain_quote = program_sx.first().and_then(Sx::as_atom) == Some(&[1][..]);
     let mut flags = random_flags(rng);
-    let refs: Vec<Vec<u8>> = match rng.below(10) {
-        0 => vec![vec![0x80]],
-        1 => vec![rng.bytes(5), vec![0xff, 0x01, 0x80]],
+    let refs: Vec<Vec<u8>> = match (refs_for_reader, rng.below(10)) {
+        (Some(r), _) => r,
+        (None, 0) => vec![vec![0x80]],
+        (None, 1) => vec![rng.bytes(5), vec![0xff, 0x01, 0x80]],
         _ => vec![],
     };
     let interned = flags.contains(ConsensusFlags::INTERNED_GENERATOR);
